@@ -2259,8 +2259,30 @@ impl Property for C13 {
                 return vec![sc];
             }
         }
+        // one package with 130..300 hinted candidates, asynchronous provider: hundreds of get_dependencies requests are
+        // in flight when the first call is cancelled; the next call needs them again
+        let mut size_family = false;
+        {
+            let mut sr = Rng::stream(seed, "size-hinted");
+            if sr.chance(1, 400) {
+                let n = sr.range(130, 300);
+                let i = sr.below(n);
+                let (mut w, reqs, _exact) = crate::checks2::c15_world(&mut sr, n, i);
+                w.packages.get_mut(&0).unwrap().hint = Hint::All;
+                let p = ProblemSpec { requirements: reqs, constraints: vec![], soft: vec![] };
+                sc.world = w;
+                sc.solves = vec![SolveSpec { problem: p.clone(), cancel: None }, SolveSpec { problem: p, cancel: None }];
+                let mut cr2 = Rng::stream(seed, "size-hinted-config");
+                gen_config(&mut cr2, &mut sc, Some(true));
+                sc.yield_mask |= Y_CAND | Y_DEPS;
+                sc.immediate_p = 0;
+                sc.reentrant_sort = false;
+                sc.spurious_p = 0;
+                size_family = true;
+            }
+        }
         // cancellation faults
-        if seed % 2 == 1 {
+        if seed % 2 == 1 || size_family {
             let base_rec = execute(&sc);
             let mut fr = Rng::stream(seed, "faults");
             // polls per solve in the fault-free history
@@ -2276,7 +2298,7 @@ impl Property for C13 {
             }
             let last = sc.solves.len() - 1;
             for (i, s) in sc.solves.iter_mut().enumerate() {
-                if i < last && i < polls.len() && polls[i] > 0 && fr.chance(1, 2) {
+                if i < last && i < polls.len() && polls[i] > 0 && (size_family || fr.chance(1, 2)) {
                     s.cancel = Some(CancelPlan {
                         at_poll: fr.below(polls[i] as usize) as u64,
                         mode: CancelMode::Persistent,
